@@ -640,12 +640,14 @@ PROPS["C05"] = {
 PROPS["C06"] = {
     "coq": "theories/Props/C06.v",
     "theorems": ["C06_every_schedule_is_short", "C06_potential_decreases", "C06_failures_propagate", "C06_final_no_thread_left",
+                 "C06_deadlock_free", "C06_reachable_completes",
                  "C06_read_failure_w1", "C06_invalid_block_w1"],
     "streams": [PAR_STREAM], "rule": PAR_RULE,
     "oracle": par_oracle,
-    "assumptions": ["PARTIAL: deadlock freedom is proved for finite instances only (complete exploration) and observed on the implementation; "
-                    "termination (no infinite schedule), failure propagation and 'nothing left running at the final state' are proved for all W, "
-                    "block counts, fault plans and schedules of the LTS; real thread exit and wall-clock termination are observed",
+    "assumptions": ["termination (no infinite schedule), deadlock freedom, failure propagation and 'nothing left running at the final state' are "
+                    "proved for all W, block counts, fault plans and schedules of the protocol LTS; that par.rs follows the LTS (trace validation), "
+                    "real thread exit and wall-clock termination are observed on the implementation; a panic inside a worker (not a failure the "
+                    "property lists) is outside the LTS",
                     "the 20 s timeout that decides 'hang' is > 100x the fault-free run time of the generated cases"],
 }
 
